@@ -279,6 +279,39 @@ fn run_scenario(sc: &Value, t: &mut Tracer) {
 	t.ev(json!({"a": "end"}));
 }
 
+/// a speed tween of non-zero length on a running clock; callbacks of exactly one internal buffer each
+fn run_tween(sc: &Value, t: &mut Tracer) {
+	let g = |k: &str| sc[k].as_u64().unwrap();
+	let speed = |u: &str, n: u64, d: u64| {
+		if u == "tps" { ClockSpeed::TicksPerSecond(n as f64 / d as f64) } else { ClockSpeed::SecondsPerTick(n as f64 / d as f64) }
+	};
+	let (u0, u1) = (sc["u0"].as_str().unwrap(), sc["u1"].as_str().unwrap());
+	let d = g("d");
+	t.reset(json!({"mode": "tween", "u0": u0, "v0n": g("v0n"), "v0d": g("v0d"), "u1": u1, "v1n": g("v1n"), "v1d": g("v1d"),
+		"d": d, "dtn": NF, "dtd": RATE, "src": sc["src"]}));
+	let mut sim = Sim::basic();
+	let mut clock = sim.manager.add_clock(speed(u0, g("v0n"), g("v0d"))).unwrap();
+	clock.start();
+	let _ = sim.callback(NF);
+	let _ = sim.callback(NF);
+	clock.set_speed(
+		speed(u1, g("v1n"), g("v1d")),
+		Tween { start_time: StartTime::Immediate, duration: chunks(d), easing: kira::Easing::Linear },
+	);
+	// the time published at the start of callback j is the time after j - 1 buffers since the command was read
+	for k in 0..(d + 4) {
+		let res = sim.callback(NF);
+		if let Some(m) = res.panicked {
+			t.ev(json!({"a": "panic", "who": "audio", "msg": m}));
+			break;
+		}
+		let ct = clock.time();
+		let t4 = ((ct.ticks as f64 + ct.fraction) * 10000.0).round() as i64;
+		t.ev(json!({"a": "tw", "k": k, "t4": t4}));
+	}
+	t.ev(json!({"a": "end"}));
+}
+
 fn main() {
 	let args: Vec<String> = std::env::args().collect();
 	quiet_panics();
@@ -287,7 +320,11 @@ fn main() {
 	let out = arg(&args, "--out").expect("--out");
 	let mut t = Tracer::create(&out);
 	for sc in read_scenarios(&inp) {
-		run_scenario(&sc, &mut t);
+		if sc["mode"] == "tween" {
+			run_tween(&sc, &mut t);
+		} else {
+			run_scenario(&sc, &mut t);
+		}
 	}
 	t.flush();
 	println!("events {}", t.events);
